@@ -12,6 +12,9 @@ from rtc import gen, oracle, driver     # noqa: E402
 
 
 def case_fn(case):
+    if case.get("kind") == "overrides":
+        from rtc import cases as _cases
+        return _cases.case_fn(case)
     rng = np.random.default_rng(case["seed"])
     try:
         comp = oracle.compile_model(case["model"], vectorize=case["vec"], style=case.get("style", 0))
@@ -28,6 +31,11 @@ def families(tier, seed):
     for tag, feats, model in fam:
         for vec in (False, True):
             cases.append(dict(tag=tag, features=feats, model=model, vec=vec, seed=seed + 1, style=0))
+    # "the returned argument values are the declared (or OVERRIDDEN) values": a few override scenarios (C07 has the full set)
+    for tag, feats, model, ops in gen.c07_cases():
+        if tag.split("-")[0] in ("U1", "U3", "U4", "U8"):
+            for vec in (False, True):
+                cases.append(dict(tag=tag, features=feats, kind="overrides", model=model, ops=ops, vec=vec, seed=seed))
     if tier == "thorough":
         for tag, feats, model in gen.c01_structured():
             cases.append(dict(tag=tag + "/style1", features=dict(feats, style=1), model=model, vec=False, seed=seed + 2, style=1))
